@@ -8,9 +8,26 @@ _spec = importlib.util.spec_from_file_location('c07_join_gen', os.path.join(os.p
 _g = importlib.util.module_from_spec(_spec)
 _spec.loader.exec_module(_g)
 
-RULE = ('search p_thick_bbox: thick polylines (2..6 vertices, widths 2..30, weighted towards widths 2..4 where a join can collapse to one '
+RULE = ('correspondence: styled bounding boxes of thick polylines and stroked triangles (join_poly_bbox, join_tri_bbox) incl. a display-scale stratum '
+        '(+-1024, widths up to 128) and the input of the repaired finding; search p_thick_bbox: thick polylines (2..6 vertices, widths 2..30, weighted towards widths 2..4 where a join can collapse to one '
         'point) and stroked triangles (all alignments): every pixel drawn lies inside the styled bounding box')
-PARTIAL = []
+PARTIAL = ['C02_join_polyline_drawn_in_bbox_partial (full statement: every pixel of a thick polyline lies in the styled bounding box; proved when no '
+           'segment is a skeleton and corners lie within +-2^29; the skeleton case is covered by the search p_thick_bbox)',
+           'C02_join_triangle_stroke_in_bbox_partial (stroke lines of triangles with Center / Outside alignment and width >= 2, no skeleton segment; fill lines, '
+           'Inside alignment and widths < 2 are covered by p_thick_bbox and by C02_tri)']
+
+
+def cases(tier, rng):
+    """correspondence for the model functions of the C02_join theorems (Model/Join.v poly_thick_bounding_box, Model/JoinTri.v
+    jt_styled_bounding_box): styled bounding boxes of thick polylines and stroked triangles, incl. the display-scale stratum"""
+    n = 1500 if tier == 'quick' else 30000
+    yield 'join_poly_bbox 2 -7 -7 -9 -10 -3 -21'
+    for k in range(n):
+        big = k % 4 == 0
+        w = _g.big_width(rng) if big else rng.choice([2, 2, 3, 4, _g.width(rng)])
+        yield J('join_poly_bbox', w, *_g.flat(_g.big_poly(rng) if big else _g.poly_pts(rng)))
+        yield J('join_tri_bbox', w if rng.random() < 0.8 else rng.choice([0, 1]), rng.randrange(3), 0,
+                *_g.flat(_g.big_tri(rng) if big else _g.tri_pts(rng)))
 
 
 def search(tier, rng):
@@ -21,3 +38,6 @@ def search(tier, rng):
         w = rng.choice([2, 2, 2, 3, 3, 4, _g.width(rng)])
         yield J('p_thick_bbox poly', w, *_g.flat(_g.poly_pts(rng)))
         yield J('p_thick_bbox tri', w, rng.randrange(3), *_g.flat(_g.tri_pts(rng)))
+        if _ % 5 == 0:           # display-scale stratum: +-1024, widths up to 128
+            yield J('p_thick_bbox poly', _g.big_width(rng), *_g.flat(_g.big_poly(rng)))
+            yield J('p_thick_bbox tri', _g.big_width(rng), rng.randrange(3), *_g.flat(_g.big_tri(rng)))
